@@ -307,6 +307,38 @@ func C16Cases(p *spec.Program, seed uint64, tier string, nSplits int) ([]*Case, 
 			}
 			add("cli-precedence:"+d.Name, ref, precedenceRun(p, cfg, d.Name), Expect{Kind: "identical-file"})
 		}
+		// a command-line list that consists of separators only (`exclude_fields=+`) is the list of empty
+		// names: it matches nothing, and it still takes precedence over the YAML list. The reference is the
+		// configuration with that list left out.
+		for _, d := range spec.DualOptions {
+			list, _, isList, set := cfg.DualValue(d.Name)
+			if !isList || !set || d.Name == "types" || len(list) == 0 {
+				continue
+			}
+			without := cfg.Clone()
+			switch d.Name {
+			case "exclude_fields":
+				without.ExcludeFields = nil
+				if usesTemporalUnmappable(p, without) {
+					continue
+				}
+			case "computed_fields":
+				without.ComputedFields = nil
+			case "required_fields":
+				without.RequiredFields = nil
+			case "sensitive_fields":
+				without.SensitiveFields = nil
+			}
+			wr := runFrom(without.Render(allOn(spec.ChYAML), nil))
+			wr.Note = "reference: the YAML file without " + d.YAML
+			for _, seps := range []string{"+", "+++"} {
+				run := refR
+				run.Params = append(append([]string{}, refR.Params...), d.CLI+"="+seps)
+				run.Note = "YAML as in the reference of this variant plus " + d.CLI + "=" + seps + " on the command line"
+				wrc := wr
+				add("cli-precedence-separators-only:"+d.Name, &wrc, run, Expect{Kind: "identical-file"})
+			}
+		}
 	}
 
 	// --- a readable, parsable configuration file that says nothing: every option on the CLI. The
@@ -428,3 +460,7 @@ func QualifiedValuesProgram(p *spec.Program) *spec.Program {
 	q.Config.TargetPackageName = "tf_out.v2"
 	return q
 }
+
+// usesTemporalUnmappable: placeholder for configurations in which dropping the exclusions would make a
+// selected type unmappable (none in the programs used here: time_type / duration_type are always set).
+func usesTemporalUnmappable(p *spec.Program, c spec.Config) bool { return false }
